@@ -1204,28 +1204,141 @@ def control_character_domain() -> list:
 
 
 def interpret_sanitiser(model, rel, fname, keep_kw="keep_spacing", trusted=None):
-    """Interpret ``rel::fname(text, keep_spacing=<bool>)`` from its AST (pyint) on ``control_character_domain()``.  The module-level translation
-    tables are folded from the module's statements (``fold_tables``) and handed to the interpreter as bindings of the module globals.
-    -> {keep: (leaked code points, example input, output or exception text)}; AnalysisError when a construct is outside pyint / the folding."""
-    import re as _re
+    """Interpret ``rel::fname(text, keep_spacing=<bool>)`` from its AST (pyint) on ``control_character_domain()``.  The module state the function
+    reads is built by interpreting the module's own top-level statements (see ``interpret_sanitiser_semantics`` below, to which this delegates).
+    -> ({keep: (leaked code points, (input, output) | None)}, {global: dict}); AnalysisError when a construct is outside pyint."""
+    return interpret_sanitiser_semantics(model, rel, fname, keep_kw=keep_kw, trusted=trusted)
 
-    from ..pyint import Interp
+
+# ---------------------------------------------------------------------------------------------------
+# module initialisation by interpretation (added in the hardening round for C49 R49.2 / C50; nothing above depends on it except
+# ``interpret_sanitiser``, which now delegates to it instead of folding table-building statements by shape)
+
+
+def _stmt_writes(st) -> set:
+    """Names a module-level statement may bind or mutate: Store/Del names, the root name of a subscript / attribute store or delete
+    (``T[k] = v``, ``del T[k]``, ``T.a = v``), and the root name of the receiver of any method call (``T.update(...)`` - may mutate)."""
+    out = set()
+    for n in ast.walk(st):
+        if isinstance(n, ast.Name) and isinstance(n.ctx, (ast.Store, ast.Del)):
+            out.add(n.id)
+        elif isinstance(n, (ast.Subscript, ast.Attribute)) and isinstance(n.ctx, (ast.Store, ast.Del)):
+            e = n
+            while isinstance(e, (ast.Subscript, ast.Attribute)):
+                e = e.value
+            if isinstance(e, ast.Name):
+                out.add(e.id)
+        elif isinstance(n, ast.Call) and isinstance(n.func, ast.Attribute):
+            e = n.func.value
+            while isinstance(e, (ast.Subscript, ast.Attribute)):
+                e = e.value
+            if isinstance(e, ast.Name):
+                out.add(e.id)
+    return out
+
+
+def _names_read(node) -> set:
+    return {n.id for n in ast.walk(node) if isinstance(n, ast.Name) and isinstance(n.ctx, ast.Load)}
+
+
+def module_init_slice(mod, roots) -> list:
+    """The module-level statements (in source order) that can influence the value of a module global read - directly, through same-module
+    functions, or through other module-level statements - by the functions named in ``roots``.  Imports, function and class definitions
+    are not part of the slice (the interpreter resolves them by itself)."""
+    stmts = [st for st in mod.tree.body if not isinstance(st, (ast.FunctionDef, ast.AsyncFunctionDef, ast.ClassDef, ast.Import, ast.ImportFrom))
+             and not (isinstance(st, ast.Expr) and isinstance(st.value, ast.Constant))]
+    writes = {id(st): _stmt_writes(st) for st in stmts}
+    needed, seen_fn, chosen = set(), set(), set()
+    for r in roots:
+        d = mod.get(r)
+        if d is not None:
+            seen_fn.add(id(d))
+            needed |= _names_read(d)
+    changed = True
+    while changed:
+        changed = False
+        for nm in list(needed):  # same-module functions / classes reachable by name
+            d = mod.get(nm)
+            if d is not None and id(d) not in seen_fn:
+                seen_fn.add(id(d))
+                needed |= _names_read(d)
+                changed = True
+        for st in stmts:
+            if id(st) not in chosen and writes[id(st)] & needed:
+                chosen.add(id(st))
+                needed |= _names_read(st)
+                changed = True
+    return [st for st in stmts if id(st) in chosen]
+
+
+def module_globals_by_interpretation(interp, rel, roots) -> dict:
+    """Run ``module_init_slice`` in source order with ``interp`` (pyint) in one global environment and bind every resulting global as
+    an override of ``interp`` - the interpreted functions of that module then see the module state CPython would have built at import
+    time (dict displays and comprehensions, item assignment and deletion, ``update`` / ``copy``, loops, helper calls, ``str.maketrans``,
+    ``dict.fromkeys``, ``re.compile`` ...), whatever statements built it.  -> the global environment.  AnalysisError when a statement
+    of the slice is outside the interpreter's subset or raises."""
     from ..pyint import Raised
 
-    mod = model.module(rel)
-    names = translation_table_names(mod)
-    tables = fold_tables(mod.tree.body, names, rel) if names else {}
-    res = {}
+    mod = interp.model.module(rel)
+    genv: dict = {}
+    for st in module_init_slice(mod, roots):
+        try:
+            interp.stmt(st, genv, mod, 0)
+        except Raised as r:
+            raise AnalysisError(f"{rel}: module-level statement raises {r} in the interpreted model: {norm(st)[:80]}")
+        except RecursionError:
+            raise AnalysisError(f"{rel}: module-level statement recurses too deeply in the interpreted model: {norm(st)[:80]}")
+        for k, v in genv.items():
+            if not k.startswith("$"):
+                interp.overrides[(rel, k)] = v
+    return genv
+
+
+SANITISER_TRUSTED = ("re", "string", "unicodedata", "itertools", "functools", "operator")
+
+
+def interpret_sanitiser_semantics(model, rel, fname, keep_kw="keep_spacing", trusted=None, domain=None):
+    """Interpret ``rel::fname(text, keep_spacing=<bool>)`` from its AST on ``control_character_domain()``; the module state the function reads is
+    built by interpreting the module's own top-level statements (``module_globals_by_interpretation``).  One interpreter per keep value: the
+    module is initialised once and the function called once per input, as in a running process.
+    -> ({keep: (leaked code points, (input, output) | None)}, {global name: dict} of the dict-valued globals)."""
+    import importlib
+
+    from ..pyint import Func
+    from ..pyint import Interp
+    from ..pyint import NullLog
+    from ..pyint import Raised
+
+    class CallbackInterp(Interp):
+        """interpreted functions / lambdas handed to a trusted native callable (``re.sub(p, fn, s)``, ``sorted(key=fn)``, ``map``) are wrapped
+        into a native callable that interprets them on call."""
+
+        def native_call(self, f, args, kwargs, where):
+            def wrap(v):
+                if isinstance(v, Func):
+                    return lambda *a, **k: self.apply(v, list(a), k, 1)
+                return v
+
+            return super().native_call(f, [wrap(a) for a in args], {k: wrap(v) for k, v in kwargs.items()}, where)
+
+    tm = {n: importlib.import_module(n) for n in SANITISER_TRUSTED}  # stdlib only, pure
+    tm["logging"] = NullLog()
+    tm.update(trusted or {})
+    inputs = list(domain) if domain is not None else control_character_domain()
+    res, tables = {}, {}
     for keep in (True, False):
+        it = CallbackInterp(model, trusted_modules=tm)
+        genv = module_globals_by_interpretation(it, rel, [fname])
+        tables = {k: v for k, v in genv.items() if isinstance(v, dict)}
         leaked, example = set(), None
-        for text in control_character_domain():
-            it = Interp(model, trusted_modules=dict({"re": _re}, **(trusted or {})))
-            for n, t in tables.items():
-                it.overrides[(rel, n)] = dict(t)
+        for text in inputs:
+            it.steps = 0
             try:
                 out = it.call(rel, fname, text, **{keep_kw: keep})
             except Raised as r:
                 raise AnalysisError(f"{rel}::{fname} raises {r} on {text[:20]!r} (sanitiser domain)")
+            except RecursionError:
+                raise AnalysisError(f"{rel}::{fname} recurses too deeply in the interpreted model")
             if not isinstance(out, str):
                 raise AnalysisError(f"{rel}::{fname} returns {type(out).__name__}, not str, in the interpreted model")
             bad = {ord(c) for c in out if ord(c) in CC_POINTS and ord(c) not in SPACING_POINTS}  # TAB / LF / CR are allowed by the properties
@@ -1234,3 +1347,102 @@ def interpret_sanitiser(model, rel, fname, keep_kw="keep_spacing", trusted=None)
             leaked |= bad
         res[keep] = (leaked, example)
     return res, tables
+
+
+# ---------------------------------------------------------------------------------------------------
+# whole-package queries without parsing the whole package (added in the hardening round: ``Model.all_modules`` costs ~4 s; a textual
+# necessary condition selects the few modules that can contribute, only those are parsed.  Rules compare the result with the
+# ``all_modules`` based computation in the thorough tier.)
+
+import re as _re_mod
+
+
+def package_sources(model, sub="mitmproxy", exclude=("mitmproxy/contrib/",)) -> dict:
+    """rel -> source text of every module ``Model.all_modules`` would return (same listing, same in-memory overrides), unparsed."""
+    cache = getattr(model, "_g_sources", None)
+    if cache is None:
+        cache = {}
+        for p in sorted((model.repo / sub).rglob("*.py")):
+            rel = p.relative_to(model.repo).as_posix()
+            if any(rel.startswith(e) for e in exclude):
+                continue
+            cache[rel] = model.source(rel)
+        try:
+            model._g_sources = cache
+        except AttributeError:
+            pass
+    return cache
+
+
+def modules_where(model, pred) -> list:
+    """Parsed modules of the package whose *source text* satisfies ``pred`` (a necessary condition of what the caller looks for)."""
+    return [model.module(rel) for rel, src in package_sources(model).items() if pred(src)]
+
+
+_CLASS_HEADER = _re_mod.compile(r"^[ \t]*class[ \t]+\w+[ \t]*\(((?:[^()]|\([^()]*\))*)\)", _re_mod.M)
+_ALIAS = _re_mod.compile(r"\b(\w+)\s+as\s+(\w+)")
+
+
+def _base_words(src) -> set | None:
+    """Identifiers that occur in the base lists of the class statements of ``src`` (aliases ``X as Y`` expanded to X as well);
+    None when a class header is not matched by the simple pattern (the module is then always a candidate)."""
+    words = set()
+    n_headers = len(_re_mod.findall(r"^[ \t]*class[ \t]+\w+[ \t]*\(", src, _re_mod.M))
+    found = _CLASS_HEADER.findall(src)
+    if len(found) != n_headers:
+        return None
+    for bases in found:
+        words |= set(_re_mod.findall(r"\w+", bases))
+    if words:
+        for orig, alias in _ALIAS.findall(src):
+            if alias in words:
+                words.add(orig)
+    return words
+
+
+def class_closure_lazy(model, seeds) -> list:
+    """Same result as ``class_closure`` (as a set of classes), but subclasses are looked for only in the modules whose class headers
+    mention the name of the class (textual necessary condition), and base classes / annotation classes are resolved on demand."""
+    words = {rel: _base_words(src) for rel, src in package_sources(model).items() if "class " in src}
+    by_name: dict = {}  # class name -> [(Module, ClassDef)] having a base that resolves to a class of that name (checked below by identity)
+
+    def subclasses_of(d):
+        key = d.name
+        if key not in by_name:
+            out = []
+            for rel, w in words.items():
+                if w is None or key in w:
+                    m = model.module(rel)
+                    for q, c in m.defs().items():
+                        if isinstance(c, ast.ClassDef):
+                            for b in c.bases:
+                                r = model.resolve_name(m, b)
+                                if r is not None and isinstance(r[1], ast.ClassDef) and r[1].name == key:
+                                    out.append((m, c, r[1]))
+            by_name[key] = out
+        return [(m, c) for m, c, base in by_name[key] if base is d]
+
+    seen: dict = {}
+    work = list(seeds)
+    while work:
+        m, d = work.pop()
+        if id(d) in seen:
+            continue
+        seen[id(d)] = (m, d)
+        for b in d.bases:
+            r = model.resolve_name(m, b)
+            if r is not None and isinstance(r[1], ast.ClassDef):
+                work.append(r)
+        work.extend(subclasses_of(d))
+        for n in ast.walk(d):
+            ann = None
+            if isinstance(n, ast.AnnAssign):
+                ann = n.annotation
+            elif isinstance(n, (ast.FunctionDef, ast.AsyncFunctionDef)):
+                if any(norm(x) in ("property", "functools.cached_property", "cached_property") for x in n.decorator_list):
+                    ann = n.returns
+                elif n.name == "__init__":
+                    for x in n.args.args + n.args.kwonlyargs:
+                        work.extend(annotation_classes(model, m, x.annotation))
+            work.extend(annotation_classes(model, m, ann))
+    return list(seen.values())
